@@ -799,6 +799,9 @@ func (fx *Fx) specCall(env *SpecEnv, e *SCall) Val {
 			return Val{T: "(ev_ch " + arg(0).T + ")", S: "Int", GT: intT}
 		case "evval":
 			return Val{T: "(ev_val " + arg(0).T + ")", S: "Iface"}
+		case "recvok":
+			// recvok(e): the receive event e delivered a value (false: the channel was closed and drained)
+			return Val{T: "(= (ev_n " + arg(0).T + ") 1)", S: "Bool", GT: boolT}
 		case "evfn":
 			return Val{T: "(ev_ch " + arg(0).T + ")", S: "Int", GT: intT}
 		case "evmode":
